@@ -11,6 +11,10 @@ let run lines =
   match mode with
   | "model" -> Model.run_script lines
   | "spec15" -> Model.run_spec15 lines
+  | "spec14" -> Model.run_spec14 lines
+  | "spec16" -> Model.run_spec16 lines
+  | "spec17" -> Model.run_spec17 lines
+  | "spec17p" -> Model.run_spec17p lines
   | m -> failwith ("unknown mode " ^ m)
 
 let flush_script acc =
